@@ -6,6 +6,7 @@ package main
 import (
 	"fmt"
 	"go/ast"
+	"go/constant"
 	"go/token"
 	"go/types"
 	"os"
@@ -247,6 +248,7 @@ func loadProgram(repo string) (*Program, error) {
 			return nil, err
 		}
 	}
+	p.resolveAliases()
 	p.applySweeps()
 	p.applyFuncTypeContracts()
 	p.applyTypeInvs()
@@ -788,6 +790,99 @@ func (p *Program) applyFuncTypeContracts() {
 				for pr := range tc.Props {
 					_ = pr
 				}
+			}
+		}
+	}
+}
+
+
+// resolveAliases: contract blocks may name a function stored in a
+// package-level map literal by its key: //@ func cidInit["endcidchar"].
+func (p *Program) resolveAliases() {
+	alias := map[string]string{}
+	for _, fn := range p.funcList {
+		if fn.Name() != "init" || fn.Parent() != nil {
+			continue
+		}
+		// map value -> global it is stored to
+		stored := map[ssa.Value]*ssa.Global{}
+		for _, b := range fn.Blocks {
+			for _, in := range b.Instrs {
+				if st, ok := in.(*ssa.Store); ok {
+					if g, ok := st.Addr.(*ssa.Global); ok {
+						stored[st.Val] = g
+					}
+				}
+			}
+		}
+		for _, b := range fn.Blocks {
+			for _, in := range b.Instrs {
+				mu, ok := in.(*ssa.MapUpdate)
+				if !ok {
+					continue
+				}
+				g := stored[mu.Map]
+				if g == nil {
+					continue
+				}
+				var keyStr string
+				kv := mu.Key
+				if cv, ok := kv.(*ssa.Convert); ok {
+					kv = cv.X
+				}
+				if ct, ok := kv.(*ssa.ChangeType); ok {
+					kv = ct.X
+				}
+				if k, ok := kv.(*ssa.Const); ok && k.Value != nil && k.Value.Kind() == constant.String {
+					keyStr = constant.StringVal(k.Value)
+				} else {
+					continue
+				}
+				val := mu.Value
+				if mi, ok := val.(*ssa.MakeInterface); ok {
+					val = mi.X
+				}
+				if ct, ok := val.(*ssa.ChangeType); ok {
+					val = ct.X
+				}
+				var target *ssa.Function
+				switch v := val.(type) {
+				case *ssa.Function:
+					target = v
+				case *ssa.MakeClosure:
+					target = v.Fn.(*ssa.Function)
+				}
+				if target == nil {
+					continue
+				}
+				alias[fmt.Sprintf("%s.%s[%q]", g.Pkg.Pkg.Name(), g.Name(), keyStr)] = p.funcKey(target)
+			}
+		}
+	}
+	for k, fc := range p.contracts {
+		real, ok := alias[k]
+		if !ok {
+			if i := strings.Index(k, "]$"); i > 0 {
+				if base, ok2 := alias[k[:i+1]]; ok2 {
+					real, ok = base+k[i+1:], true
+				}
+			}
+		}
+		if ok {
+			delete(p.contracts, k)
+			fc.Key = real
+			if ex := p.contracts[real]; ex != nil {
+				ex.Requires = append(ex.Requires, fc.Requires...)
+				ex.Ensures = append(ex.Ensures, fc.Ensures...)
+				for n, lc := range fc.Loops {
+					ex.Loops[n] = lc
+				}
+				for pr := range fc.Props {
+					ex.Props[pr] = true
+				}
+				ex.Safety = append(ex.Safety, fc.Safety...)
+			} else {
+				p.contracts[real] = fc
 			}
 		}
 	}
